@@ -310,7 +310,11 @@ func (e *Explorer) Explore() {
 	for {
 		if !e.Deadline.IsZero() && st.Executions%256 == 0 && time.Now().After(e.Deadline) {
 			st.Exhaustive = false
-			st.CapNotes = append(st.CapNotes, fmt.Sprintf("deadline hit after %d executions; next prefix %v", st.Executions, prefix))
+			pf := fmt.Sprint(prefix)
+			if len(pf) > 120 {
+				pf = pf[:120] + "…"
+			}
+			st.CapNotes = append(st.CapNotes, fmt.Sprintf("deadline hit after %d executions; next prefix %s", st.Executions, pf))
 			break
 		}
 		doSelf := checked < e.selfCheck
@@ -331,7 +335,10 @@ func (e *Explorer) Explore() {
 			if doSelf {
 				checked++
 				ch := choicesOf(res.trace)
+				// the re-run must not count twice: give it throw-away statistics
+				e.Stats = newStats()
 				r2 := e.run(ch, true)
+				e.Stats = st
 				st.SelfCheckRuns++
 				if r2.obs != res.obs || len(r2.trace) != len(res.trace) || len(r2.viol) != len(res.viol) {
 					panic(fmt.Sprintf("engine: self-check failed: execution %v not reproducible\n--- first\n%s\n--- second\n%s", ch, res.obs, r2.obs))
